@@ -106,6 +106,15 @@ def drv_task(task):
             if CANARY in a:
                 sh.bad("drv-leak", "drv:%s:canary" % cmd, "environment canary in the answer to %s" % c[1][:200], dict(stdin=c[1]))
                 continue
+            if cmd == "P" and outcome == "OK":
+                # the Umm-al-Qura reader has no field grammar to fall back on: what it accepts must be Y-M-D in range
+                flds = c[1].split("\t")
+                if len(flds) >= 3 and flds[1] in ("hijri", "ummulqura"):
+                    m_ = re.match(r"^(\d{4})-(\d{1,2})-(\d{1,2})", flds[2])
+                    if not m_ or not (1 <= int(m_.group(2)) <= 12 and 1 <= int(m_.group(3)) <= 31):
+                        sh.bad("drv-accept", "drv:P:hijri-accepts-garbage", "dt_strpdt(%r, %r) accepted: %s" % (flds[2][:60], flds[1], a[:80]),
+                               dict(stdin=c[1], observed=a))
+                        continue
             if cmd in ("F", "R", "U") and outcome in ("OK", "TRUNC", "UNK") and len(parts) >= 2:
                 try:
                     bsz = int(c[1].split("\t")[-1])
@@ -136,6 +145,16 @@ def tool_cases(rng, bindir, n):
             txt = txt.replace(b"\0", b"\x01").replace(b"\n", b" ")
         lines = [gen.hostile_text(rng) if rng.random() < .5 else gen.rand_value_text(rng) for _ in range(rng.randrange(1, 12))]
         stdin = b"\n".join(l if isinstance(l, bytes) else l.encode("utf-8", "surrogateescape") for l in lines) + b"\n"
+        if rng.random() < .05:
+            # digit-only input formats are searched without a needle character (the scanner uses \x01 as a stand-in):
+            # lines with that very byte, and lines without any digit, next to real values
+            dfmt = rng.choice(["%Y%m%d", "%s", "%H%M%S", "%Y%j", "%d%m%Y", "%y%m%d"])
+            ls = []
+            for _ in range(rng.randrange(2, 9)):
+                w = rng.choice([b"\x01abcd", b"x\x01", b"ab\x01c", b"\x01", b"abc\x01\x01", b"no digits here", b"\x01" * 40, b"tail\x01"])
+                ls.append(w if rng.random() < .7 else rng.choice([b"20120304", b"86400", b"121314", b"2012060"]))
+            out.append(([T("dconv"), "-i", dfmt, "-S"], b"\n".join(ls) + b"\n", "needleless-sed"))
+            continue
         if rng.random() < .06:
             # backslash escapes in formats (-e)
             f2 = (fmt if isinstance(fmt, bytes) else fmt.encode("utf-8", "surrogateescape")) + rng.choice([b"\\", b"\\n", b"\\t\\", b"\\q"])
@@ -170,6 +189,12 @@ def tool_cases(rng, bindir, n):
             z = rng.choice(["Europe/Berlin", "UTC", "TAI", "GPS", "+01:00", "-12:34", "+99:99", "+1", "Nowhere/Land", "../../etc/passwd",
                             "x" * 300, "MAP:KEY", ":", "a:b:c", "+", "-", ""]) if rng.random() < .8 else fmt
             out.append(([T("dconv"), "--zone", z, "-f", "%FT%T%Z", "--", gen.rand_value_text(rng)], b"", "zone-arg"))
+        elif k == 11 and rng.random() < .5:
+            # an existing zone under a path padded to the neighbourhood of dzone's 256 byte line buffer
+            n = rng.choice([200, 225, 228, 229, 230, 231, 232, 240, 254, 255, 256, 257, 300])
+            zn = "Europe/Berlin"
+            pad = max(0, n - len(zn))
+            out.append(([T("dzone"), "./" * (pad // 2) + "/" * (pad % 2) + zn, rng.choice(["2000-01-01T00:00:00", "--next", txt])], b"", "dzone-longpath"))
         elif k == 11:
             out.append(([T("dzone"), rng.choice(["Europe/Berlin", "x" * 300, "Asia/Tokyo"]),
                          rng.choice(["--next", "--prev", ""]) or "Asia/Tokyo", txt], b"", "dzone"))
@@ -210,6 +235,21 @@ def tool_task(task):
             sh.bad("tool-leak", "tool:%s:env-leak" % cls, "process environment leaks into the output: %s -> %r" %
                    (core.shq(r.argv)[:300], r.out[:200]), res_replay(r), cls=(cls, "leak"))
             continue
+        if cls == "needleless-sed":
+            # a line without a digit holds no value of a digit-only format: sed mode must hand it on untouched
+            il = stdin.split(b"\n")[:-1]
+            ol = r.out.split(b"\n")[:-1]
+            badl = None
+            if len(il) != len(ol):
+                badl = ("line count %d -> %d" % (len(il), len(ol)))
+            else:
+                for a_, b_ in zip(il, ol):
+                    if not any(48 <= ch <= 57 for ch in a_) and a_ != b_:
+                        badl = "%r came out as %r" % (a_[:40], b_[:40])
+                        break
+            if badl:
+                sh.bad("tool-transparent", "tool:needleless-sed:changed", "%s: %s" % (core.shq(r.argv)[:200], badl), res_replay(r), cls=(cls, "changed"))
+                continue
         if r.truncated:
             sh.bad("tool-safety", "tool:%s:output-cap" % cls, "more than 4 MiB of output: %s" % core.shq(r.argv)[:300],
                    res_replay(r), cls=(cls, "flood"))
